@@ -582,7 +582,7 @@ func TestC17(t *testing.T) {
 		h.Exhaustive(fmt.Sprintf("short stream %d (%d bytes): every single split, every pair (sampled on the socket path in the quick tier), every truncation point, byte-by-byte, both receive paths", si, len(stream)))
 	}
 
-	rapidCases(h, "server", env.PerShard(env.Pick(1200, 60000)), func(rt *rapid.T) segCase {
+	rapidCases(h, "server", env.PerShard(env.Pick(6000, 120000)), func(rt *rapid.T) segCase {
 		c := segCase{Path: rapid.SampledFrom([]string{"reader", "socket"}).Draw(rt, "path"), CutAt: -1}
 		nr := rapid.IntRange(1, 6).Draw(rt, "n")
 		for i := 0; i < nr; i++ {
@@ -618,7 +618,7 @@ func TestC17(t *testing.T) {
 		return f
 	})
 
-	rapidCases(h, "client", env.PerShard(env.Pick(800, 40000)), func(rt *rapid.T) segClientCase {
+	rapidCases(h, "client", env.PerShard(env.Pick(4000, 80000)), func(rt *rapid.T) segClientCase {
 		c := segClientCase{Path: rapid.SampledFrom([]string{"reader", "socket"}).Draw(rt, "path"), CutAt: -1, Seed: rapid.Uint64Range(1, 1<<40).Draw(rt, "seed")}
 		nc := rapid.IntRange(1, 4).Draw(rt, "n")
 		total := 0
